@@ -107,4 +107,79 @@ Proof.
         rewrite firstn_skipn. reflexivity.
 Qed.
 
+(* ---------------------------------------------- properties of conjugate trees *)
+Lemma lwf_conj e : forall n w e', wf n e -> D e -> length w = n -> cj w e = Ok e' -> lwf n e'.
+Proof.
+  fxind e; intros n w e' Hwf HD Lw Hc; cbn [cconj wf D] in *; try contradiction;
+    try (injection Hc as <-; cbn [lwf]; auto; fail).
+  - (* FL2Sq *) injection Hc as <-. unfold rmul. destruct (_ =? _)%num; exact I.
+  - (* FHuber *) injection Hc as <-. cbn [lwf is_linear]. rewrite vconst_length.
+    repeat split; auto; discriminate.
+  - (* FLeft *) destruct Hwf as [Hs Hwf]. destruct (s <=? nzero)%num; [discriminate|].
+    destruct (cj w f) as [f'|] eqn:E; cbn [rbind] in Hc; [|discriminate]. injection Hc as <-.
+    apply lwf_mul_right. unfold rmul. destruct (s =? nzero)%num; [exact I|]. apply lwf_mkLeft. eauto.
+  - (* FRight *) destruct Hwf as [Hs Hwf]. destruct HD as [_ HD].
+    destruct (cj w f) as [f'|] eqn:E; cbn [rbind] in Hc; [|discriminate].
+    destruct (s =? nzero)%num; [discriminate|]. injection Hc as <-. apply lwf_mul_right. eauto.
+  - (* FScalarSum *) destruct (cj w f) as [f'|] eqn:E; cbn [rbind] in Hc; [|discriminate].
+    injection Hc as <-. cbn [lwf]. eauto.
+  - (* FTransl *) destruct Hwf as [Lt Hwf]. destruct (cj w f) as [f'|] eqn:E; cbn [rbind] in Hc; [|discriminate].
+    injection Hc as <-. cbn [lwf]. repeat split; eauto.
+  - (* FQuadPert *) destruct Hwf as (Ha & Lu & Hwf & Hflag). numR.
+    destruct (Reqb_spec a 0) as [Hz|Hz].
+    + destruct (cj w f) as [f'|] eqn:E; cbn [rbind] in Hc; [|discriminate].
+      destruct (Reqb c 0); injection Hc as <-; cbn [lwf]; apply lwf_mkTransl.
+    + injection Hc as <-. cbn [lwf is_linear]. numR. rewrite (Reqb_false a 0) by assumption.
+      apply andb_false_r.
+  - (* FDefConj *) destruct HD as [_ HD]. injection Hc as <-. eapply wf_D_lwf; eauto.
+  - (* FBreg *) eauto.
+  - (* FSep2 *) destruct Hwf as (Hk & H1 & H2). destruct HD as [D1 D2].
+    destruct (cj (firstn k w) f) as [f'|] eqn:E1; cbn [rbind] in Hc; [|discriminate].
+    destruct (cj (skipn k w) g) as [g'|] eqn:E2; cbn [rbind] in Hc; [|discriminate].
+    injection Hc as <-. cbn [lwf]. repeat split; [assumption| |].
+    + eapply IHf; [exact H1|exact D1| |exact E1]. rewrite firstn_length; lia.
+    + eapply IHg; [exact H2|exact D2| |exact E2]. rewrite skipn_length; lia.
+Qed.
+
+Lemma conj_right_nz e : forall n w e', wf n e -> cj w e = Ok e' ->
+  forall s' g', e' = FRight s' g' -> s' <> 0.
+Proof.
+  fxind e; intros n w e' Hwf Hc s' g' He; cbn [cconj wf] in *; subst e';
+    try (injection Hc as Hc; discriminate Hc).
+  - (* FL2Sq *) injection Hc as Hc. unfold rmul in Hc. destruct (_ =? _)%num; [discriminate|]. discriminate.
+  - (* FQuadS *) destruct a as [a|], b as [b|]; try discriminate;
+      try (destruct (a =? nzero)%num; [discriminate|]; injection Hc as Hc; discriminate Hc);
+      try (injection Hc as Hc; discriminate Hc).
+  - (* FLeft *) destruct Hwf as [Hs Hwf]. destruct (s <=? nzero)%num; [discriminate|].
+    destruct (cj w f) as [f'|] eqn:E; cbn [rbind] in Hc; [|discriminate]. injection Hc as Hc.
+    unfold mul_right, rmul in Hc. numR. rewrite (Reqb_false s 0) in Hc by lra.
+    rewrite is_linear_mkLeft in Hc. destruct (is_linear f').
+    + destruct (mkLeft_cases (1 / s) (mkLeft s f')) as [(? & ? & _ & Hm)|Hm]; rewrite Hm in Hc; discriminate.
+    + destruct (mkLeft_cases s f') as [(? & ? & _ & Hm)|Hm]; rewrite Hm in Hc; cbn [mkRight] in Hc;
+        injection Hc as <- _; apply Rgt_not_eq; apply Rdiv_lt_0_compat; lra.
+  - (* FRight *) destruct Hwf as [Hs Hwf].
+    destruct (cj w f) as [f'|] eqn:E; cbn [rbind] in Hc; [|discriminate]. numR.
+    rewrite (Reqb_false s 0) in Hc by assumption. injection Hc as Hc.
+    unfold mul_right in Hc. destruct (is_linear f').
+    + destruct (mkLeft_cases (1 / s) f') as [(? & ? & _ & Hm)|Hm]; rewrite Hm in Hc; discriminate.
+    + assert (H1s : 1 / s <> 0) by (intros H0; apply Hs; field_simplify_eq in H0; lra).
+      destruct (mkRight_cases (1 / s) f') as [(s2 & g2 & Hf & Hm)|Hm]; rewrite Hm in Hc; injection Hc as <- _.
+      * specialize (IHf n w f' Hwf E s2 g2 Hf). apply Rmult_integral_contrapositive_currified; assumption.
+      * assumption.
+  - (* FRightVec *) destruct (cj w f); cbn [rbind] in Hc; [injection Hc as Hc|]; discriminate.
+  - (* FScalarSum *) destruct (cj w f); cbn [rbind] in Hc; [injection Hc as Hc|]; discriminate.
+  - (* FTransl *) destruct (cj w f); cbn [rbind] in Hc; [injection Hc as Hc|]; discriminate.
+  - (* FQuadPert *) destruct (a =? nzero)%num.
+    + destruct (cj w f) as [f'|]; cbn [rbind] in Hc; [|discriminate].
+      destruct (c =? nzero)%num; injection Hc as Hc; [|discriminate].
+      destruct (mkTransl_cases f' u) as [(? & ? & _ & Hm)|Hm]; rewrite Hm in Hc; discriminate.
+    + injection Hc as Hc; discriminate.
+  - (* FInfConv *) destruct (cj w f); cbn [rbind] in Hc; [|discriminate].
+    destruct (cj w g); cbn [rbind] in Hc; [injection Hc as Hc|]; discriminate.
+  - (* FDefConj *) injection Hc as ->. cbn [wf] in Hwf. tauto.
+  - (* FBreg *) eauto.
+  - (* FSep2 *) destruct (cj (firstn k w) f); cbn [rbind] in Hc; [|discriminate].
+    destruct (cj (skipn k w) g); cbn [rbind] in Hc; [injection Hc as Hc|]; discriminate.
+Qed.
+
 End M.
